@@ -774,6 +774,181 @@ def stale_e2e_shard(ctx, cases):
             ctx.fail(k, case, w, stream="e2e-stale", n_faults=len(sc.get("faults", {})))
 
 
+
+# ---------------------------------------------------------------- wave 5: slow applications, I-Am during a transfer
+
+W5_FAULTS = ["drop", "dup", ["delay", 0.4]]
+
+
+def run_w5(sc, max_loops=200000):
+    """complete stacks (harness/e2e.py) with two things the plain sweeps lack:
+       answer : the server APPLICATION answers `answer` seconds after it was handed the request, from a
+                later task (not from inside its indication() callback) — timers re-armed by a repaired
+                fault are still pending while the transaction waits;
+       iam    : [[frame index, "a"|"b", "first"|"same"|"changed"], ...] — while frame #index is on the
+                medium that stack's application processes an I-Am of its peer
+                (DeviceInfoCache.iam_device_info, e2e.Stack.know);
+       know   : {"a": "full"|"addr"|"none", "b": ...} what each side knows of its peer at submit time:
+                full = I-Am seen, addr = a record by address only (no device instance, e.g. from
+                configuration), none = nothing.
+    Returns a result dict in the format of e2e_oracle.run_scenario."""
+    from . import e2e as E
+    from . import e2e_oracle as O
+    faults = {int(k): (tuple(v) if isinstance(v, list) else v) for k, v in sc.get("faults", {}).items()}
+    iams = {}
+    for idx, who, variant in sc.get("iam", []):
+        iams.setdefault(int(idx), []).append((who, variant))
+    box = {}
+
+    def teach(st, other, variant):
+        if variant == "changed":          # the peer announces a larger maximum APDU than before
+            old = other.device.maxApduLengthAccepted
+            other.device.maxApduLengthAccepted = 1476 if old != 1476 else 1024
+            try:
+                st.know(other)
+            finally:
+                other.device.maxApduLengthAccepted = old
+        else:
+            st.know(other)
+
+    def policy(i, pdu):
+        for who, variant in iams.get(i, []):
+            st, other = (box["a"], box["b"]) if who == "a" else (box["b"], box["a"])
+            teach(st, other, variant)
+        return faults.get(i, "ok")
+    net = E.E2ENet(policy=policy)
+    a = net.add_stack(10, **sc.get("a", {}))
+    b = net.add_stack(20, **sc.get("b", {}))
+    box["a"], box["b"] = a, b
+
+    def addr_only(st, other):
+        from bacpypes.app import DeviceInfo
+        rec = DeviceInfo(None, other.address)
+        rec.maxApduLengthAccepted = other.device.maxApduLengthAccepted
+        rec.segmentationSupported = other.device.segmentationSupported
+        if getattr(other.device, "maxSegmentsAccepted", None) is not None:
+            rec.maxSegmentsAccepted = other.device.maxSegmentsAccepted
+        st.app.deviceInfoCache.update_device_info(rec)
+    kn = sc.get("know", {"a": "full", "b": "full"})
+    for st, other, how in ((a, b, kn.get("a", "full")), (b, a, kn.get("b", "full"))):
+        if how == "full":
+            st.know(other)
+        elif how == "addr":
+            addr_only(st, other)
+    b.server_mode = "ack"
+    b.response_payload = O.pattern(sc.get("slen", 0), 1)
+    if sc.get("answer"):
+        from bacpypes.task import FunctionTask
+        serve = b._serve
+
+        def later(apdu, serve=serve):
+            FunctionTask(serve, apdu).install_task(delta=sc["answer"])
+        b._serve = later
+    req_payload = O.pattern(sc["clen"], 2)
+    t0 = net.vt.now
+    a.send_cpt(b, req_payload)
+    ok = net.run(until=net.vt.now + 200.0, max_loops=max_loops)
+    quiesced = getattr(net.vt, "quiesced_at", None)
+    return {
+        "terminated": ok and quiesced is not None,
+        "elapsed": (quiesced if quiesced is not None else net.vt.now) - t0,
+        "conf": [(round(c[0] - t0, 6), c[1], c[2], c[3]) for c in a.confirmations],
+        "ind": [(round(i[0] - t0, 6), i[1], i[2]) for i in b.indications],
+        "raised": a.raised, "errors": net.vt.errors[:5],
+        "residue": {"a": a.residue(), "b": b.residue(), "heap": len(net.vt.pending())},
+        "frames": [(f[0], int(str(f[1])), str(f[2]), f[3], f[4], round((f[5] or t0) - t0, 6)) for f in net.lan.log],
+        "req_payload": req_payload, "resp_payload": b.response_payload, "iocb": [],
+    }
+
+
+def judge_w5(ctx, sc, res, expect_ok):
+    """exact payload, exactly one outcome, no exception out of the stack, nothing left; with at most one
+    fault (and whatever the applications do meanwhile) the outcome is the answer"""
+    from . import e2e_oracle as O
+    case = {"w5": sc}
+    nf = len(sc.get("faults", {}))
+    fields = dict(stream="w5", n_faults=nf,
+                  segments=max(sc.get("clen", 0), sc.get("slen", 0)) // max(1, sc["a"]["max_apdu"] - 6))
+    bad = list(O.check_c05(sc, res, None))
+    # the explicit `raise RuntimeError("invalid APDU (n)")` sites of the state machines are modelled
+    # behaviour (outputs `raised invalidApdu n`, state unchanged; notes/Tsm.md, Observations): core.run logs
+    # them and goes on.  Anything else that escapes a state machine is a failure.
+    errs = [e for e in list(res["errors"]) + list(res["raised"])
+            if not (e[0] == "RuntimeError" and str(e[1]).startswith("invalid APDU ("))]
+    if errs:
+        bad.append(("stack-exception", "an exception left the stack: %r" % (errs[:2],)))
+    if len(res["conf"]) != 1:
+        bad.append(("outcome-count", "the client application was told %d outcomes (%r) for one request" % (
+            len(res["conf"]), [(c[1], c[3] if not isinstance(c[3], bytes) else len(c[3])) for c in res["conf"]])))
+    r = res["residue"]
+    if res["terminated"] and (r["a"]["client"] or r["a"]["server"] or r["b"]["client"] or r["b"]["server"] or r["heap"]):
+        bad.append(("residue", "left at quiescence: %r" % (r,)))
+    if expect_ok and nf <= 1 and not any(c[1] == "ack" for c in res["conf"]):
+        bad.append(("single-fault", "%s turned a transfer that succeeds into %r (server application answers after "
+                    "%r s, I-Am %r)" % ("one fault %r" % sc["faults"] if nf else "no fault at all",
+                                        [(c[1], c[3] if not isinstance(c[3], bytes) else len(c[3])) for c in res["conf"]],
+                                        sc.get("answer"), sc.get("iam"))))
+    for k, w in bad[:1]:
+        ctx.fail(k, case, w, **fields)
+    ctx.count("w5", ("w5", sc["a"]["max_apdu"], bool(sc.get("answer")), tuple(sorted(str(v if isinstance(v, str) else v[0])
+              for v in sc.get("faults", {}).values())), tuple((w, v) for _i, w, v in sc.get("iam", [])),
+              tuple(sorted(sc.get("know", {}).items())), tuple(c[1] for c in res["conf"])))
+
+
+def w5_shard(ctx, items):
+    for sc in items:
+        base = dict(sc)
+        if sc.get("_sweep"):
+            base.pop("_sweep")
+            r0 = run_w5(base)
+            judge_w5(ctx, base, r0, True)
+            ok0 = any(c[1] == "ack" for c in r0["conf"])
+            if sc["_sweep"] == "faults":
+                for i in range(len(r0["frames"])):
+                    for act in W5_FAULTS:
+                        s1 = dict(base, faults={str(i): act})
+                        judge_w5(ctx, s1, run_w5(s1), ok0)
+            else:                                   # an I-Am at every frame index
+                for i in range(len(r0["frames"])):
+                    for who, variant in sc["_sweep"]:
+                        s1 = dict(base, iam=[[i, who, variant]])
+                        judge_w5(ctx, s1, run_w5(s1), ok0)
+        else:
+            judge_w5(ctx, base, run_w5(base), True)
+
+
+def w5_cases(ctx, rng):
+    out = []
+    apdus = [50, 206] if ctx.quick else [50, 128, 206, 480]
+    for apdu in apdus:
+        size = apdu - 6
+        shapes = [(5, 5), (2 * size + 1, 5), (5, 2 * size + 1), (3 * size - 4, 3 * size - 4)]
+        # every single fault x a server application that answers later, from another task
+        for clen, slen in shapes:
+            # the answer must leave room for one retransmission of a response segment before the client's
+            # APDU timeout (3 s): answer + T_seg (1.5 s) < 3 s when the response is segmented — otherwise the
+            # client's retry of the whole request collides with the response (protocol, not a defect)
+            for answer in ((0.5, 2.0) if slen <= size else (0.5, 1.0)):
+                out.append({"clen": clen, "slen": slen, "a": IMPL.stack(apdu), "b": IMPL.stack(apdu),
+                            "answer": answer, "_sweep": "faults"})
+        # an I-Am of the peer processed during the transfer, at every frame index
+        for clen, slen in shapes[1:]:
+            for kn in ({"a": "addr", "b": "addr"}, {"a": "none", "b": "none"}, {"a": "full", "b": "full"},
+                       {"a": "addr", "b": "full"}, {"a": "full", "b": "addr"}):
+                variants = [("a", "first"), ("b", "first")] if kn != {"a": "full", "b": "full"} else \
+                           [("a", "same"), ("b", "same"), ("a", "changed"), ("b", "changed")]
+                out.append({"clen": clen, "slen": slen, "a": IMPL.stack(apdu), "b": IMPL.stack(apdu),
+                            "know": kn, "_sweep": variants})
+        # both at once, sampled: I-Am + one fault + slow application
+        for _ in range(6 if ctx.quick else 40):
+            clen, slen = rng.choice(shapes[1:])
+            out.append({"clen": clen, "slen": slen, "a": IMPL.stack(apdu), "b": IMPL.stack(apdu),
+                        "know": rng.choice([{"a": "addr", "b": "addr"}, {"a": "none", "b": "addr"}]),
+                        "answer": rng.choice([None, 0.5, 1.0]),
+                        "iam": [[rng.randrange(0, 8), rng.choice("ab"), "first"]],
+                        "faults": {str(rng.randrange(0, 10)): rng.choice(W5_FAULTS)}})
+    return out
+
 # ---------------------------------------------------------------- corpus / run
 
 def corpus_cases():
@@ -789,6 +964,10 @@ def corpus_cases():
 def run_case(ctx, case, label):
     if "stale_e2e" in case:
         stale_e2e_shard(ctx, [case["stale_e2e"]])
+        return
+    if "w5" in case:
+        sc = case["w5"]
+        judge_w5(ctx, sc, run_w5(sc), True)
         return
     if "scenario" in case:                      # end-to-end witness
         IMPL.replay_impl(ctx, case)
@@ -827,6 +1006,8 @@ def run(ctx):
     core.run_shards(ctx, "harness.c05", "shard", specs)
     cases = stale_e2e_cases(ctx, ctx.sub_rng("c05/e2e-stale"))
     core.run_shards(ctx, "harness.c05", "stale_e2e_shard", [c for c in (cases[i::16] for i in range(16)) if c])
+    w5 = w5_cases(ctx, ctx.sub_rng("c05/w5"))
+    core.run_shards(ctx, "harness.c05", "w5_shard", [c for c in (w5[i::16] for i in range(16)) if c])
     IMPL.run_impl(ctx)
 
 
@@ -849,7 +1030,8 @@ def search(ctx):
 def replay(ctx, payload):
     rec = payload.get("failure") or (payload.get("correspondence_disagreements") or [{}])[0]
     case = rec.get("case")
-    if isinstance(case, dict) and ("scenario" in case or "clen" in case or "kind" in case or "stale_e2e" in case):
+    if isinstance(case, dict) and ("scenario" in case or "clen" in case or "kind" in case or "stale_e2e" in case
+                                   or "w5" in case):
         run_case(ctx, case, "replay")
         return
     if isinstance(case, dict) and "events" in case:
